@@ -199,9 +199,14 @@ func (e *c08Env) configure(s *res.Service, r *rand.Rand) {
 	addL(s.Mux, "c", "c.$id")
 	s.Handle("u.$id", opts("u")...)
 	addL(s.Mux, "u", "u.$id")
+	// the service's root resource (pattern "") and the root of a mounted mux
+	s.Handle("", opts("m")...)
+	addL(s.Mux, "root", "")
 	sub := res.NewMux("")
 	sub.Handle("m.$id", opts("m")...)
 	addL(sub, "sub.m", "m.$id")
+	sub.Handle("", opts("m")...)
+	addL(sub, "sub.root", "")
 	s.Mount("sub", sub)
 	if r.Intn(2) == 0 { // listener registered through the parent on a mounted pattern
 		s.AddListener("sub.m.$id", listener("sub.m", e.nlisten["sub.m"]))
@@ -394,12 +399,18 @@ func c08Run(c *core.Ctx, b core.Batch) {
 					replied = true
 				}
 			}
-			typ := []string{"m", "c", "u", "sub.m"}[r.Intn(4)]
+			typ := []string{"m", "c", "u", "sub.m", "m", "c", "u", "sub.m", "root", "sub.root"}[r.Intn(10)]
 			key, rname := typ, "svc."+typ+fmt.Sprintf(".r%d", r.Intn(3))
 			rtyp := typ
-			if typ == "sub.m" {
+			switch typ {
+			case "sub.m":
 				rtyp = "m"
+			case "root":
+				rtyp, rname = "m", "svc"
+			case "sub.root":
+				rtyp, rname = "m", "svc.sub"
 			}
+			c.SetAdd("resource_shapes", typ)
 			inHandler := r.Intn(2) == 0
 			c08One(c, env, steps, rtyp, key, rname, inHandler, cfgDesc)
 			if done == 3 {
